@@ -45,11 +45,42 @@ def _wrap_set(cls, orig, kind):
     return setter
 
 
+def _wrap_base(orig, kind):
+    """stdlib Future.set_result / set_exception / cancel, reached through super() from the library's future classes: log whether
+    the calling thread holds that future's own lock (`_me_lock`) - the locking protocol that Model/MeFuture.lean assumes for
+    every state change (Set / Cancel frames act under the future's lock)."""
+    @functools.wraps(orig)
+    def meth(self, *a):
+        s = core.ACTIVE
+        if s is not None and not s.aborting and s.cur is not None and type(self).__module__.startswith("more_executors"):
+            lk = getattr(self, "_me_lock", None)
+            owned = None
+            if lk is not None and hasattr(lk, "_is_owned"):
+                try:
+                    owned = bool(lk._is_owned())
+                except Exception:
+                    owned = None
+            if owned is not None and not (kind == "cancel" and self.done()):
+                s.ev("fstate", s.name_of(self, "f"), kind, owned, type(self).__name__)
+        return orig(self, *a)
+    meth._verif_wrapped = True
+    return meth
+
+
+def protocol_breaks(log):
+    """state changes of library futures performed without the future's own lock: [(log index, future, kind, class)]"""
+    return [(i, e[2], e[3], e[5]) for i, e in enumerate(log) if e[1] == "fstate" and e[4] is False]
+
+
 def install():
     global _done
     if _done:
         return
     patch.install()
+    for nm, kind in (("set_result", "result"), ("set_exception", "exception"), ("cancel", "cancel")):
+        o = Future.__dict__[nm]
+        if not getattr(o, "_verif_wrapped", False):
+            setattr(Future, nm, _wrap_base(o, kind))
     seen = set()
     for mod in patch.LIB_MODULES:
         for _n, cls in list(vars(mod).items()):
